@@ -79,7 +79,7 @@ def opCfgStr : List String → String
 
 def opCfgParse : List String → String
   | [t] => match parseStr t with
-    | some s => resId (fromStr s)
+    | some s => resId (Entry.parseConfigId s)
     | none => "bad-op"
   | _ => "bad-op"
 
